@@ -438,6 +438,7 @@ void add_type(Node *node);
 
 void codegen(Obj *prog, FILE *out);
 int va_arg_class(Type *ty);
+bool is_returned_in_memory(Type *ty);
 int align_to(int n, int align);
 
 //
